@@ -299,6 +299,76 @@ theorem indicator_iff_pdg (σ1 σ2 m0 m1 m2 m3 ov : ℝ) (hσ1 : 0 < σ1) (h0 : 
         apply mul_pos <;> linarith
       linarith
 
+/-! ### Calling conventions
+
+`Gen.C20` also contains the definitions regenerated from the SAME four public objects reached by
+keywords in declaration order (`KwDecl`), reversed (`KwRev`), rotated — e.g. the masses written
+before the invariants — (`KwRot`), and with leading positional + trailing out-of-order keyword
+arguments (`Mixed`); for the two `@unevaluated` classes additionally the unevaluated node itself
+(`Node…`, i.e. its `.args` order). How the caller writes the arguments must not matter: each is
+the positional definition, definitionally. (`Kibble.evaluate` unpacks `.args` by position, so a
+constructor that orders `.args` by the caller's keywords breaks exactly these.) -/
+
+theorem kallen_kw_decl (x y z : ℝ) :
+    KallenKwDecl x y z = Kallen x y z := rfl
+
+theorem kallen_kw_rev (x y z : ℝ) :
+    KallenKwRev x y z = Kallen x y z := rfl
+
+theorem kallen_kw_rot (x y z : ℝ) :
+    KallenKwRot x y z = Kallen x y z := rfl
+
+theorem kallen_mixed (x y z : ℝ) :
+    KallenMixed x y z = Kallen x y z := rfl
+
+theorem kallen_node_kw_rev (x y z : ℝ) :
+    KallenNodeKwRev x y z = Kallen x y z := rfl
+
+theorem kallen_node_mixed (x y z : ℝ) :
+    KallenNodeMixed x y z = Kallen x y z := rfl
+
+theorem kibble_kw_decl (σ1 σ2 σ3 m0 m1 m2 m3 : ℝ) :
+    KibbleKwDecl σ1 σ2 σ3 m0 m1 m2 m3 = Kibble σ1 σ2 σ3 m0 m1 m2 m3 := rfl
+
+theorem kibble_kw_rev (σ1 σ2 σ3 m0 m1 m2 m3 : ℝ) :
+    KibbleKwRev σ1 σ2 σ3 m0 m1 m2 m3 = Kibble σ1 σ2 σ3 m0 m1 m2 m3 := rfl
+
+theorem kibble_kw_rot (σ1 σ2 σ3 m0 m1 m2 m3 : ℝ) :
+    KibbleKwRot σ1 σ2 σ3 m0 m1 m2 m3 = Kibble σ1 σ2 σ3 m0 m1 m2 m3 := rfl
+
+theorem kibble_mixed (σ1 σ2 σ3 m0 m1 m2 m3 : ℝ) :
+    KibbleMixed σ1 σ2 σ3 m0 m1 m2 m3 = Kibble σ1 σ2 σ3 m0 m1 m2 m3 := rfl
+
+theorem kibble_node_kw_rev (σ1 σ2 σ3 m0 m1 m2 m3 : ℝ) :
+    KibbleNodeKwRev σ1 σ2 σ3 m0 m1 m2 m3 = Kibble σ1 σ2 σ3 m0 m1 m2 m3 := rfl
+
+theorem kibble_node_mixed (σ1 σ2 σ3 m0 m1 m2 m3 : ℝ) :
+    KibbleNodeMixed σ1 σ2 σ3 m0 m1 m2 m3 = Kibble σ1 σ2 σ3 m0 m1 m2 m3 := rfl
+
+theorem third_mandelstam_kw_decl (σ1 σ2 m0 m1 m2 m3 : ℝ) :
+    thirdMandelstamKwDecl σ1 σ2 m0 m1 m2 m3 = thirdMandelstam σ1 σ2 m0 m1 m2 m3 := rfl
+
+theorem third_mandelstam_kw_rev (σ1 σ2 m0 m1 m2 m3 : ℝ) :
+    thirdMandelstamKwRev σ1 σ2 m0 m1 m2 m3 = thirdMandelstam σ1 σ2 m0 m1 m2 m3 := rfl
+
+theorem third_mandelstam_kw_rot (σ1 σ2 m0 m1 m2 m3 : ℝ) :
+    thirdMandelstamKwRot σ1 σ2 m0 m1 m2 m3 = thirdMandelstam σ1 σ2 m0 m1 m2 m3 := rfl
+
+theorem third_mandelstam_mixed (σ1 σ2 m0 m1 m2 m3 : ℝ) :
+    thirdMandelstamMixed σ1 σ2 m0 m1 m2 m3 = thirdMandelstam σ1 σ2 m0 m1 m2 m3 := rfl
+
+theorem indicator_kw_decl (σ1 σ2 m0 m1 m2 m3 ov : ℝ) :
+    isWithinPhasespaceKwDecl σ1 σ2 m0 m1 m2 m3 ov = isWithinPhasespace σ1 σ2 m0 m1 m2 m3 ov := rfl
+
+theorem indicator_kw_rev (σ1 σ2 m0 m1 m2 m3 ov : ℝ) :
+    isWithinPhasespaceKwRev σ1 σ2 m0 m1 m2 m3 ov = isWithinPhasespace σ1 σ2 m0 m1 m2 m3 ov := rfl
+
+theorem indicator_kw_rot (σ1 σ2 m0 m1 m2 m3 ov : ℝ) :
+    isWithinPhasespaceKwRot σ1 σ2 m0 m1 m2 m3 ov = isWithinPhasespace σ1 σ2 m0 m1 m2 m3 ov := rfl
+
+theorem indicator_mixed (σ1 σ2 m0 m1 m2 m3 ov : ℝ) :
+    isWithinPhasespaceMixed σ1 σ2 m0 m1 m2 m3 ov = isWithinPhasespace σ1 σ2 m0 m1 m2 m3 ov := rfl
+
 /-! ### Non-vacuity: the hypotheses are met by a concrete event / box point -/
 
 example : ∃ E1 E2 x2 y2 z2 E3 x3 y3 z3 m0 m1 m2 m3 : ℝ,
